@@ -22,6 +22,20 @@ func init() { runners["C14"] = runC14 }
 
 // ---------- Coq printers (nil and empty slices are not distinguished) ----------
 
+// big integers as hexadecimal numerals: coqc converts a decimal numeral of several hundred digits in seconds
+func c14OptZ(z *big.Int) string {
+	if z == nil {
+		return "None"
+	}
+	if z.BitLen() <= 64 {
+		return cOptZ(z)
+	}
+	if z.Sign() < 0 {
+		return "(Some (-0x" + new(big.Int).Abs(z).Text(16) + ")%Z)"
+	}
+	return "(Some 0x" + z.Text(16) + "%Z)"
+}
+
 func c14Md(m *esdt.MetaData) string {
 	return fmt.Sprintf("{| md_nonce := %s; md_name := %s; md_creator := %s; md_royalties := %s; md_hash := %s; md_uris := %s; md_attributes := %s |}",
 		cN(m.Nonce), cBytes(m.Name), cBytes(m.Creator), cN(uint64(m.Royalties)), cBytes(m.Hash), cBytesList(m.URIs), cBytes(m.Attributes))
@@ -32,7 +46,7 @@ func c14Tok(t *esdt.ESDigitalToken) string {
 		md = "(Some " + c14Md(t.TokenMetaData) + ")"
 	}
 	return fmt.Sprintf("{| t_type := %s; t_value := %s; t_props := %s; t_meta := %s; t_reserved := %s |}",
-		cN(uint64(t.Type)), cOptZ(t.Value), cBytes(t.Properties), md, cBytes(t.Reserved))
+		cN(uint64(t.Type)), c14OptZ(t.Value), cBytes(t.Properties), md, cBytes(t.Reserved))
 }
 func c14Roles(r *esdt.ESDTRoles) string { return cBytesList(r.Roles) }
 
@@ -428,7 +442,7 @@ func (r *c14Run) casterDecode(buf []byte, coqCase bool) {
 		}
 	}
 	if coqCase {
-		c.addCase(fmt.Sprintf("KCasterDec %s %s", cBytes(buf), c14Outcome(class, cOptZ(v))), fmt.Sprintf("BigIntCaster.Unmarshal %x", buf))
+		c.addCase(fmt.Sprintf("KCasterDec %s %s", cBytes(buf), c14Outcome(class, c14OptZ(v))), fmt.Sprintf("BigIntCaster.Unmarshal %x", buf))
 	}
 }
 
@@ -473,10 +487,10 @@ func (r *c14Run) casterEncode(v *big.Int, coqCase bool, tag string) {
 		c.fail("monitor", "caster-roundtrip", fmt.Sprintf("Unmarshal(Marshal(%s)) = %s %v", desc, cl2, v2), rp)
 	}
 	if coqCase {
-		c.addCase(fmt.Sprintf("KCasterEnc %s %s %s", cOptZ(v), cN(uint64(size)), cBytes(out)), "BigIntCaster Size/MarshalTo "+desc)
+		c.addCase(fmt.Sprintf("KCasterEnc %s %s %s", c14OptZ(v), cN(uint64(size)), cBytes(out)), "BigIntCaster Size/MarshalTo "+desc)
 		// MarshalTo into buffers of other lengths: error / panic classes
 		for _, bl := range []int{0, 1, 2, size - 1, size + 1, size + 3} {
-			if bl < 0 || bl == size || bl > 1<<16 {
+			if bl < 0 || bl == size || size > 40 && c.rng.Intn(6) != 0 || size > 300 {
 				continue
 			}
 			cl, n, out, _ := c14CasterTo(v, bl)
@@ -485,7 +499,7 @@ func (r *c14Run) casterEncode(v *big.Int, coqCase bool, tag string) {
 			if cl == "value" {
 				val = fmt.Sprintf("(%s, %s)", cN(uint64(n)), cBytes(out))
 			}
-			c.addCase(fmt.Sprintf("KCasterTo %s %s %s", cOptZ(v), cN(uint64(bl)), c14Outcome(cl, val)), fmt.Sprintf("BigIntCaster.MarshalTo %s into %d bytes", desc, bl))
+			c.addCase(fmt.Sprintf("KCasterTo %s %s %s", c14OptZ(v), cN(uint64(bl)), c14Outcome(cl, val)), fmt.Sprintf("BigIntCaster.MarshalTo %s into %d bytes", desc, bl))
 		}
 	}
 }
@@ -534,7 +548,10 @@ func (r *c14Run) genAmount(huge bool) *big.Int {
 	default:
 		n := 1 + c.rng.Intn(40)
 		if huge && c.rng.Intn(4) == 0 {
-			n = 100 + c.rng.Intn(400)
+			n = 40 + c.rng.Intn(90) // up to 2^1040
+			if c.rng.Intn(12) == 0 {
+				n = 300 + c.rng.Intn(300) // evaluating the model on such magnitudes costs ~0.1 s each
+			}
 		}
 		b := make([]byte, n)
 		c.rng.Read(b)
@@ -774,7 +791,7 @@ func (r *c14Run) mutate(b []byte) []byte {
 func runC14(c *ctx) {
 	r := &c14Run{c: c, decSeen: map[string]bool{}}
 	c.header = "From EV Require Import Base.Bytes Base.Monad Codec.Types Codec.Varint Codec.BigIntCaster Codec.Proto Corr.C14.\n"
-	c.perFile = 1500
+	c.perFile = 900
 	thorough := c.thorough() || c.widen
 	kinds := []*c14Kind{c14Kinds["Tok"], c14Kinds["Roles"], c14Kinds["Md"]}
 
@@ -842,8 +859,9 @@ func runC14(c *ctx) {
 		p := new(big.Int).Lsh(big.NewInt(1), k)
 		amounts = append(amounts, p, new(big.Int).Neg(p), new(big.Int).Sub(p, big.NewInt(1)), new(big.Int).Neg(new(big.Int).Sub(p, big.NewInt(1))), new(big.Int).Add(p, big.NewInt(1)))
 	}
-	for _, v := range amounts {
-		r.casterEncode(v, true, "boundary")
+	for i, v := range amounts {
+		// the model's N_to_be is quadratic: above 2^1100 only the power of two itself goes to the Coq side
+		r.casterEncode(v, v == nil || v.BitLen() <= 1100 || (i-8)%5 == 0, "boundary")
 	}
 	nAm := 300
 	if thorough {
@@ -891,7 +909,7 @@ func runC14(c *ctx) {
 	var validEnc = map[string][][]byte{}
 	for i := 0; i < nVal; i++ {
 		t := r.genTok()
-		if b := r.encodeValue(c14Kinds["Tok"], t, true, "random"); b != nil && len(b) < 400 {
+		if b := r.encodeValue(c14Kinds["Tok"], t, true, "random"); b != nil && len(b) < 220 {
 			validEnc["Tok"] = append(validEnc["Tok"], b)
 		}
 		if i < 2 {
@@ -900,11 +918,11 @@ func runC14(c *ctx) {
 		}
 		if i%2 == 0 {
 			m := r.genMd()
-			if b := r.encodeValue(c14Kinds["Md"], m, true, "random"); b != nil && len(b) < 400 {
+			if b := r.encodeValue(c14Kinds["Md"], m, true, "random"); b != nil && len(b) < 220 {
 				validEnc["Md"] = append(validEnc["Md"], b)
 			}
 			ro := r.genRoles()
-			if b := r.encodeValue(c14Kinds["Roles"], ro, true, "random"); b != nil && len(b) < 400 {
+			if b := r.encodeValue(c14Kinds["Roles"], ro, true, "random"); b != nil && len(b) < 220 {
 				validEnc["Roles"] = append(validEnc["Roles"], b)
 			}
 			if i == 0 {
